@@ -546,47 +546,107 @@ theorem splitlines_ends_crlfcrlf (s : Bytes) : splitlines (s ++ [13, 10, 13, 10]
 /-! ### wildcard patterns -/
 namespace Glob
 
-theorem fullMatch_star (s : Bytes) : fullMatch [42] s = true := by
+theorem anySuffix_true_iff (k : Bytes → Bool) (s : Bytes) :
+    anySuffix k s = true ↔ ∃ t, t <:+ s ∧ k t = true := by
   induction s with
-  | nil => simp [fullMatch]
-  | cons c cs ih => rw [fullMatch]; simp [ih]
+  | nil =>
+    simp only [anySuffix, List.suffix_nil]
+    exact ⟨fun h => ⟨[], rfl, h⟩, fun ⟨t, ht, hk⟩ => ht ▸ hk⟩
+  | cons c cs ih =>
+    simp only [anySuffix, Bool.or_eq_true, ih, List.suffix_cons_iff]
+    constructor
+    · rintro (h | ⟨t, ht, hk⟩)
+      · exact ⟨_, Or.inl rfl, h⟩
+      · exact ⟨t, Or.inr ht, hk⟩
+    · rintro ⟨t, ht | ht, hk⟩
+      · exact Or.inl (ht ▸ hk)
+      · exact Or.inr ⟨t, ht, hk⟩
 
-theorem fullMatch_literal (p s : Bytes) (h : 42 ∉ p) : fullMatch p s = true ↔ p = s := by
-  induction p generalizing s with
-  | nil => cases s <;> simp [fullMatch]
-  | cons a ps ih =>
-    simp only [List.mem_cons, not_or] at h
-    have ha : (a == 42) = false := by simpa using fun e => h.1 e.symm
-    cases s with
-    | nil => rw [fullMatch]; simp [ha]
-    | cons c cs =>
-      rw [fullMatch]
-      simp [ha, ih cs h.2]
-
-theorem fullMatch_not_prefix_witness :
-    fullMatch (b!"*good.com") (b!"good.com") = true ∧
-    fullMatch (b!"*good.com") (b!"good.com.evil.com") = false := by
-  constructor
-  · simp [fullMatch]
-  · simp [fullMatch]
-
-theorem matchNoNl_eq_fullMatch (p s : Bytes) (h : (10 : UInt8) ∉ s) : matchNoNl p s = fullMatch p s := by
-  revert h
-  fun_induction matchNoNl p s with
-  | case1 => intro _; simp [fullMatch]
-  | case2 => intro _; simp [fullMatch]
-  | case3 a ps ih => intro h; rw [fullMatch, ih h]
-  | case4 a ps c cs ha ih1 ih2 =>
-    intro h
+/-- without a newline in the subject the two suffix searches agree (for continuations that agree on suffixes) -/
+theorem anySuffixNoNl_eq_anySuffix_of (k1 k2 : Bytes → Bool) (s : Bytes) (h : (10 : UInt8) ∉ s)
+    (hk : ∀ t, t <:+ s → k1 t = k2 t) : anySuffixNoNl k1 s = anySuffix k2 s := by
+  induction s with
+  | nil => simp only [anySuffixNoNl, anySuffix]; exact hk [] (List.suffix_refl _)
+  | cons c cs ih =>
     have hc : (c != 10) = true := by
       simp only [bne_iff_ne, ne_eq]; exact fun e => h (by simp [e])
     have hcs : (10 : UInt8) ∉ cs := fun e => h (List.mem_cons_of_mem _ e)
-    rw [fullMatch, if_pos ha, ih1 h, ih2 hcs]
-    simp [hc]
-  | case5 a ps c cs ha ih =>
-    intro h
-    have hcs : (10 : UInt8) ∉ cs := fun e => h (List.mem_cons_of_mem _ e)
-    rw [fullMatch, if_neg ha, ih hcs]
+    simp only [anySuffixNoNl, anySuffix, hc, Bool.true_and]
+    rw [hk _ (List.suffix_refl _), ih hcs (fun t ht => hk t (List.suffix_cons_iff.mpr (Or.inr ht)))]
+
+theorem anySuffixNoNl_eq_anySuffix (k : Bytes → Bool) (s : Bytes) (h : (10 : UInt8) ∉ s) :
+    anySuffixNoNl k s = anySuffix k s :=
+  anySuffixNoNl_eq_anySuffix_of k k s h (fun _ _ => rfl)
+
+private theorem fullMatch_cons_eq (p : UInt8) (ps s : Bytes) :
+    fullMatch (p :: ps) s = if p == 42 then anySuffix (fullMatch ps) s else
+      match s with
+      | [] => false
+      | c :: cs => p == c && fullMatch ps cs := by
+  cases s <;> rfl
+
+private theorem matchNoNl_cons_eq (p : UInt8) (ps s : Bytes) :
+    matchNoNl (p :: ps) s = if p == 42 then anySuffixNoNl (matchNoNl ps) s else
+      match s with
+      | [] => false
+      | c :: cs => p == c && matchNoNl ps cs := by
+  cases s <;> rfl
+
+theorem fullMatch_nil (s : Bytes) : fullMatch [] s = true ↔ s = [] := by
+  simp [fullMatch]
+
+/-- declarative reading of the glob: `*` stands for an arbitrary string -/
+theorem fullMatch_star_cons (ps s : Bytes) :
+    fullMatch (42 :: ps) s = true ↔ ∃ a b, s = a ++ b ∧ fullMatch ps b = true := by
+  have : fullMatch (42 :: ps) s = anySuffix (fullMatch ps) s := by
+    rw [fullMatch_cons_eq]; simp
+  rw [this, anySuffix_true_iff]
+  constructor
+  · rintro ⟨t, ⟨a, ha⟩, hk⟩; exact ⟨a, t, ha.symm, hk⟩
+  · rintro ⟨a, b, hs, hk⟩; exact ⟨b, ⟨a, hs.symm⟩, hk⟩
+
+theorem fullMatch_char_cons (p : UInt8) (hp : p ≠ 42) (ps s : Bytes) :
+    fullMatch (p :: ps) s = true ↔ ∃ cs, s = p :: cs ∧ fullMatch ps cs = true := by
+  have hp' : (p == 42) = false := by simpa using hp
+  rw [fullMatch_cons_eq]
+  cases s with
+  | nil => simp [hp']
+  | cons c cs =>
+    simp only [hp', Bool.false_eq_true, if_false, Bool.and_eq_true, beq_iff_eq, List.cons.injEq]
+    constructor
+    · rintro ⟨h1, h2⟩; exact ⟨cs, ⟨h1.symm, rfl⟩, h2⟩
+    · rintro ⟨cs', ⟨h1, h2⟩, h3⟩; subst h1; subst h2; exact ⟨rfl, h3⟩
+
+theorem fullMatch_star (s : Bytes) : fullMatch [42] s = true :=
+  (fullMatch_star_cons [] s).mpr ⟨s, [], by simp, (fullMatch_nil []).mpr rfl⟩
+
+theorem fullMatch_literal (p s : Bytes) (h : 42 ∉ p) : fullMatch p s = true ↔ p = s := by
+  induction p generalizing s with
+  | nil => rw [fullMatch_nil]; exact ⟨fun h => h.symm, fun h => h.symm⟩
+  | cons a ps ih =>
+    simp only [List.mem_cons, not_or] at h
+    rw [fullMatch_char_cons a (fun e => h.1 e.symm)]
+    constructor
+    · rintro ⟨cs, hs, hm⟩; rw [hs, (ih cs h.2).mp hm]
+    · intro e; exact ⟨ps, e.symm, (ih ps h.2).mpr rfl⟩
+
+theorem fullMatch_not_prefix_witness :
+    fullMatch (b!"*good.com") (b!"good.com") = true ∧
+    fullMatch (b!"*good.com") (b!"good.com.evil.com") = false := by decide
+
+theorem matchNoNl_eq_fullMatch (p s : Bytes) (h : (10 : UInt8) ∉ s) : matchNoNl p s = fullMatch p s := by
+  induction p generalizing s with
+  | nil => simp [matchNoNl, fullMatch]
+  | cons a ps ih =>
+    rw [matchNoNl_cons_eq, fullMatch_cons_eq]
+    split
+    · exact anySuffixNoNl_eq_anySuffix_of _ _ s h
+        (fun t ht => ih t (fun e => h (ht.subset e)))
+    · cases s with
+      | nil => rfl
+      | cons c cs =>
+        simp only []
+        rw [ih cs (fun e => h (List.mem_cons_of_mem _ e))]
 
 theorem reMatch_eq_fullMatch (p s : Bytes) (h : (10 : UInt8) ∉ s) : reMatch p s = fullMatch p s := by
   unfold reMatch
@@ -598,10 +658,7 @@ theorem reMatch_eq_fullMatch (p s : Bytes) (h : (10 : UInt8) ∉ s) : reMatch p 
 
 /-- the `$` quirk is real on subjects that end in a newline -/
 theorem reMatch_trailing_newline_witness :
-    reMatch (b!"a") (b!"a" ++ [10]) = true ∧ fullMatch (b!"a") (b!"a" ++ [10]) = false := by
-  constructor
-  · simp [reMatch, matchNoNl]
-  · simp [fullMatch]
+    reMatch (b!"a") (b!"a" ++ [10]) = true ∧ fullMatch (b!"a") (b!"a" ++ [10]) = false := by decide
 
 end Glob
 
